@@ -241,22 +241,25 @@ Definition drain_all_ops (e : env) (s : st) : list op :=
 Inductive hop :=
 | HOp (o : op)
 | HAsk (e : env) (accepted : bool) (snd : lsender) (to : addr) (mid : nat)
-| HDrain (e : env).
+| HDrain (e : env)
+| HCount (a : addr)     (* DeadlettersCountRequest{Address: a}: no state change, reported in the trace *).
 
 Definition hops (s : st) (h : hop) : list op :=
   match h with
   | HOp o => [o]
   | HAsk e acc snd t mid => [OAskSend e acc snd t mid; OAskTimeout e acc snd t mid]
   | HDrain e => drain_all_ops e s
+  | HCount _ => []
   end.
 Definition hstep (cap : nat) (s : st) (h : hop) : st :=
   let s1 := run cap (hops s h) s in run cap (dl_all_ops s1) s1.
 
-(** per step: (counter, length of the fan-out queue, letters published by this step) *)
-Fixpoint htrace (cap : nat) (hs : list hop) (s : st) : list (nat * nat * list letter) :=
+(** per step: (counter, length of the fan-out queue, per-receiver count asked by HCount, letters published by this step) *)
+Fixpoint htrace (cap : nat) (hs : list hop) (s : st) : list (nat * nat * nat * list letter) :=
   match hs with
   | [] => []
   | h :: r =>
       let s' := hstep cap s h in
-      (counter s', length (fq s'), skipn (length (published s)) (published s')) :: htrace cap r s'
+      (counter s', length (fq s'), match h with HCount a => getc a (percount s') | _ => 0 end,
+       skipn (length (published s)) (published s')) :: htrace cap r s'
   end.
